@@ -298,7 +298,7 @@ def main():
         else:
             args = [binp, "-seed", str(seed), "-tier", tier, "-out", rundir]
             if a.replay:
-                args += ["-replay", a.replay]
+                args += ["-replay", os.path.abspath(a.replay)]
             rc, out = sh(args, cwd=HARNESS, env=goenv(), timeout=cfgp.get("harness_timeout", 1500) * (4 if tier == "thorough" else 1))
             if a.replay:
                 print(out)
